@@ -35,7 +35,17 @@ let domain_ok d =
       && (match last.[String.length last - 1] with 'a'..'z' | 'A'..'Z' -> true | _ -> false))
 
 let local_literals = ref []
-let other_literals = ref ["[192.0.2.77]"; "[ipv6:2001:db8::77]"; "[192.0.2.2]"; "[ipv6:2001:db8::2]"]   (* every literal the generator uses; a valid literal that is not the local address has no users *)
+(* a syntactically valid literal that is not the local address has no users.  IPv4: four decimal numbers 0..255 without
+   leading zeros; IPv6: the forms the generator uses *)
+let valid_v4 (t : string) =
+  match String.split_on_char '.' t with
+  | [a; b; c; d] -> List.for_all (fun x -> let n = String.length x in n >= 1 && n <= 3 && String.for_all (fun ch -> ch >= '0' && ch <= '9') x
+                                               && (n = 1 || x.[0] <> '0') && int_of_string x <= 255) [a; b; c; d]
+  | _ -> false
+let is_other_literal (dom : string) =
+  let n = String.length dom in
+  n > 2 && dom.[0] = '[' && dom.[n - 1] = ']' &&
+  (valid_v4 (String.sub dom 1 (n - 2)) || List.mem dom ["[ipv6:2001:db8::77]"; "[ipv6:2001:db8::2]"])
 
 let o_helo (arg : n list) : bool =
   let s = str_of_bytes arg in
@@ -60,7 +70,7 @@ let o_addr (is_rcpt : bool) (arg : n list) : ap_result =
               let local = String.sub inner 0 k and dom = String.lowercase_ascii (String.sub inner (k + 1) (String.length inner - k - 1)) in
               if local <> "" && String.for_all is_atext local && is_rcpt && List.mem dom !local_literals then
                 AP_ok (bytes_of_str (local ^ "@" ^ dom), more, RLocal)      (* literal of the local IP: accepted for any local part *)
-              else if local <> "" && String.for_all is_atext local && is_rcpt && String.length dom > 2 && dom.[0] = '[' && List.mem dom !other_literals then
+              else if local <> "" && String.for_all is_atext local && is_rcpt && is_other_literal dom then
                 AP_nouser
               else
               if local = "" || not (String.for_all is_atext local) || not (domain_ok dom) then AP_syntax
@@ -99,13 +109,66 @@ let o_ext (more : n list) : ext_result =
       else Ext_enoexec in
   go 0 [] 0 0 None
 
+(* smtp_auth on the text behind "AUTH ": PLAIN with an initial response is decided here (canonical base64 only is generated;
+   the decoder and the exchange forms are property C09); the checkpassword stand-in accepts the password "secret",
+   crashes for the user "crash" *)
+let b64_decode (t : string) : string option =
+  let v c = match c with 'A'..'Z' -> Some (Char.code c - 65) | 'a'..'z' -> Some (Char.code c - 71) | '0'..'9' -> Some (Char.code c + 4)
+                       | '+' -> Some 62 | '/' -> Some 63 | _ -> None in
+  let n = String.length t in
+  if n mod 4 <> 0 then None else
+  let buf = Buffer.create n in
+  let ok = ref true in
+  let i = ref 0 in
+  while !ok && !i < n do
+    let q = String.sub t !i 4 in
+    let pad = if q.[3] = '=' then (if q.[2] = '=' then 2 else 1) else 0 in
+    if pad > 0 && !i + 4 <> n then ok := false
+    else begin
+      let vals = List.init (4 - pad) (fun k -> v q.[k]) in
+      if List.exists (fun x -> x = None) vals then ok := false
+      else begin
+        let vs = List.map (function Some x -> x | None -> 0) vals @ List.init pad (fun _ -> 0) in
+        let w = List.fold_left (fun a x -> a * 64 + x) 0 vs in
+        Buffer.add_char buf (Char.chr ((w lsr 16) land 255));
+        if pad < 2 then Buffer.add_char buf (Char.chr ((w lsr 8) land 255));
+        if pad < 1 then Buffer.add_char buf (Char.chr (w land 255))
+      end
+    end;
+    i := !i + 4
+  done;
+  if !ok then Some (Buffer.contents buf) else None
+
+let o_auth (arg : n list) : auth_result =
+  let s = str_of_bytes arg in
+  let up = String.uppercase_ascii s in
+  let mech m = starts_with up m && (String.length s = String.length m || s.[String.length m] = ' ') in
+  if mech "PLAIN" then begin
+    if String.length s <= 6 then Auth_multi      (* "AUTH PLAIN" alone: 334, the response comes in the next line *)
+    else match b64_decode (String.sub s 6 (String.length s - 6)) with
+      | None -> Auth_done (n_of_int 501)
+      | Some d ->
+          (* authorize-id NUL user NUL password, as auth_plain() walks it *)
+          let len = String.length d in
+          let cstr i = if i >= len then "" else (match String.index_from_opt d i '\000' with Some j -> String.sub d i (j - i) | None -> String.sub d i (len - i)) in
+          let id = String.length (cstr 0) + 1 in
+          let user = if len > id then cstr id else "" in
+          let pass = if user <> "" && len > id + String.length user + 1 then cstr (id + String.length user + 1) else "" in
+          if user = "" || pass = "" then Auth_done (n_of_int 501)
+          else if user = "crash" then Auth_done (n_of_int 454)
+          else if pass = "secret" then Auth_ok (bytes_of_str user)
+          else Auth_done (n_of_int 535)
+  end
+  else if mech "LOGIN" then Auth_multi
+  else Auth_done (n_of_int 504)
+
 let make_oracles cfg : oracles =
   let relay = cfg "relay" "none" and ip = cfg "ip" "v4" in
   let plan = List.filter (fun x -> x <> "") (String.split_on_char ',' (cfg "qq" "")) in
   let remoteip = if ip = "v4" then "::ffff:192.0.2.1" else "2001:db8::1" in
   (* an IPv6 literal of the local address is never recognised: addrsyntax lower-cases the address and addrparse
      then compares the tag with "IPv6:" case-sensitively *)
-  local_literals := (if ip = "v4" then ["[192.0.2.2]"] else []);
+  local_literals := (if ip = "v4" then ["[192.0.2." ^ cfg "lip" "2" ^ "]"] else []);
   { o_helo = o_helo; o_addr = o_addr; o_ext = o_ext;
     o_relay = (match relay with "listed" -> Zpos XH | "none" | "unlisted" -> Z0 | _ -> Zneg XH);
     o_mx = (fun a -> let s = str_of_bytes a in
@@ -127,11 +190,13 @@ let make_oracles cfg : oracles =
     o_databytes = n_of_int (int_of_string (cfg "databytes" "0"));
     o_liphost = bytes_of_str "mail.example.org";
     o_check2822 = (cfg "check2822" "0" = "1");
+    o_authperm = (cfg "auth" "0" = "1");
+    o_auth = o_auth;
     (* the trace header is the extracted model of write_received() / spfreceived(SPF_NONE) *)
-    o_trace = (fun helo from esmtp first relayclient ->
+    o_trace = (fun authname helo from esmtp first relayclient ->
         trace_header
           { t_remotehost = []; t_authhide = false; t_remoteip = bytes_of_str remoteip; t_remoteport = Some (bytes_of_str "1234");
-            t_helostr = helo; t_authname = []; t_tlsclient = None; t_remoteinfo = None;
+            t_helostr = helo; t_authname = authname; t_tlsclient = None; t_remoteinfo = None;
             t_heloname = bytes_of_str "mail.example.org"; t_version = bytes_of_str "Qsmtpd 0.39dev";
             t_esmtp = esmtp; t_cipher = None; t_chunked = false; t_first = first; t_date = bytes_of_str (String.make 31 'D') }
           from (int_of_n relayclient = 1)) }
@@ -145,10 +210,10 @@ let make_toracles cfg : toracles =
   let remoteip = if ip = "v4" then "::ffff:192.0.2.1" else "2001:db8::1" in
   { o_clear = oc;
     (* the extracted model of write_received() with a TLS session: "(<cipher> encrypted) ESMTPS"; the runner masks the cipher name *)
-    o_trace_tls = (fun helo from esmtp first relayclient ->
+    o_trace_tls = (fun authname helo from esmtp first relayclient ->
         trace_header
           { t_remotehost = []; t_authhide = false; t_remoteip = bytes_of_str remoteip; t_remoteport = Some (bytes_of_str "1234");
-            t_helostr = helo; t_authname = []; t_tlsclient = None; t_remoteinfo = None;
+            t_helostr = helo; t_authname = authname; t_tlsclient = None; t_remoteinfo = None;
             t_heloname = bytes_of_str "mail.example.org"; t_version = bytes_of_str "Qsmtpd 0.39dev";
             t_esmtp = esmtp; t_cipher = Some (bytes_of_str "CIPHER"); t_chunked = false; t_first = first;
             t_date = bytes_of_str (String.make 31 'D') }
@@ -255,7 +320,7 @@ let simple_check (o : toracles) (items : string list) (toks : tok list) hand : s
         let r = next_reply () in
         let rep = Reply (n_of_int r) in
         if starts_with u "HELO " || starts_with u "EHLO " then begin
-          if r = 250 then emit [Note NBoundary; Note NHelo; rep] else raise Not_simple;
+          if r = 250 then emit [Note NBoundary; Note NHelo; Note (NEsmtp (starts_with u "EHLO ")); rep] else raise Not_simple;
           if peek_tok "O" then evs := !evs @ [TOffer];
           go rest end
         else if starts_with u "MAIL FROM:" then begin
@@ -289,6 +354,13 @@ let simple_check (o : toracles) (items : string list) (toks : tok list) hand : s
              | [] -> ()
              | _ -> raise Not_simple)
           end else (emit [rep]; go rest) end
+        else if starts_with u "AUTH " then begin
+          (* a 235 means "authenticated"; the name is the oracle's (the reply does not carry it) *)
+          (if r = 235 then
+             (match o_auth (bytes_of_str (String.sub line 5 (String.length line - 5))) with
+              | Auth_ok nm when o.o_clear.o_authperm -> emit [Note (NAuth nm); rep]
+              | _ -> emit [Note (NAuth (bytes_of_str "?")); rep])
+           else emit [rep]); go rest end
         else if u = "RSET" then (emit (if r = 250 then [Note NBoundary; rep] else [rep]); go rest)
         else if u = "QUIT" then (emit [rep; Closed]; if rest <> [] then raise Not_simple)
         else if u = "NOOP" || starts_with u "VRFY" then (emit [rep]; go rest)
